@@ -175,9 +175,9 @@ func (val Value) Equals(other Value) Value {
 			// An unknown with a dynamic type compares as unknown, which we need
 			// to check before the type comparison below.
 			return unknownResult()
-		case !val.ty.Equals(other.ty):
-			// There is no null comparison or dynamic types, so unequal types
-			// will never be equal.
+		case !typesMayBecomeEqual(val.ty, other.ty):
+			// There is no null comparison, and no way for the types to
+			// agree once any dynamic parts of the known value are decided.
 			return False
 		default:
 			return unknownResult()
@@ -190,9 +190,9 @@ func (val Value) Equals(other Value) Value {
 			// An unknown with a dynamic type compares as unknown, which we need
 			// to check before the type comparison below.
 			return unknownResult()
-		case !other.ty.Equals(val.ty):
-			// There's no null comparison or dynamic types, so unequal types
-			// will never be equal.
+		case !typesMayBecomeEqual(other.ty, val.ty):
+			// There's no null comparison, and no way for the types to
+			// agree once any dynamic parts of the known value are decided.
 			return False
 		default:
 			return unknownResult()
